@@ -523,6 +523,36 @@ def r8_store_events(ctx, prog):
                         file=f['file'], line=(res[0] or res[1])[0]['line'], path=(res[0] or res[1])[0]['path'])
 
 
+def r9_records_immutable(ctx, prog, rule_id='C11.R9'):
+    """"A valid handle always denotes the same session or object": the record behind an issued handle (kind, slot, owning session, object, privacy) is written once, on the local
+    Handle that is then inserted under a fresh number - never through an element of the handle table.  Re-binding a record (e.g. to the session that looked the object up last) makes the
+    handle die with the wrong session."""
+    r = ctx.rule(rule_id, 'the record behind an issued handle is never modified: Handle fields are written only on a local that is inserted under a new number', floor=2, engine='E5 ownership (who may write)')
+    fields = {f_['name'] for f_ in (prog.classes.get('Handle', {}).get('fields') or [])} or {'kind', 'slotID', 'hSession', 'object', 'isPrivate'}
+    n = 0
+    for f in sorted(prog.functions.values(), key=lambda f: (f['file'], f['line'])):
+        if f['body'] is None or f.get('class') == 'Handle':
+            continue
+        locals_ = {}
+        for x in walk(f['body']):
+            if x.get('k') == 'Decl':
+                for d in x['decls']:
+                    locals_[d['var']['name']] = d['type']
+        for x in walk(f['body']):
+            if x.get('k') == 'Assign' and x['a'].get('k') == 'Member' and x['a']['field'] in fields and (x['a'].get('fq') or '').startswith('Handle::'):
+                base = x['a']['base']
+                site = 'write of Handle::%s@%d' % (x['a']['field'], x['l'])
+                n += 1
+                ctx.analysed(f)
+                if base.get('k') == 'Var' and locals_.get(base['name'], '').replace('const ', '').strip() == 'Handle':
+                    r.ok(f['qname'], site, 'on the local %s before it is inserted' % base['name'], file=f['file'], line=x['l'])
+                else:
+                    r.violation(f['qname'], site, 'the field %s of a record that is already in the handle table (%s) is changed: the issued handle now denotes something else (it dies with another session / passes another privacy test)' % (x['a']['field'], canon(base)[:60]),
+                                file=f['file'], line=x['l'])
+    if n == 0:
+        r.undecided('HandleManager', 'writes of Handle fields', 'no assignment to a field of Handle was found (the extractor no longer resolves Handle::field?)', file='', line=0)
+
+
 def run(ctx):
     prog = ctx.prog('ossl-file')
     r1_counter(ctx, prog)
@@ -533,9 +563,12 @@ def run(ctx):
     r6_store_key(ctx, prog)
     r7_session_ids(ctx, prog)
     r8_store_events(ctx, prog)
+    r9_records_immutable(ctx, prog)
 
 
 MUTANTS = [
+    dict(name='addtokenobject-updates-privacy-of-known-handle', rule='C11.R9', file='src/lib/handle_mgr/HandleManager.cpp', after='CK_OBJECT_HANDLE HandleManager::addTokenObject(',
+         old='\t\t} else\n\t\t\treturn oit->second;', new='\t\t}\n\t\thit->second.isPrivate = isPrivate;\n\t\treturn oit->second;'),
     dict(name='createobject-session-object-under-internal-handle', rule='C11.R6', file='src/lib/SoftHSM.cpp', after='CK_RV SoftHSM::CreateObject(',
          old='object = sessionObjectStore->createObject(slot->getSlotID(), hSession, isPrivate != CK_FALSE);', new='object = sessionObjectStore->createObject(slot->getSlotID(), session->getHandle(), isPrivate != CK_FALSE);'),
     dict(name='counter-decrement-on-destroy', rule='C11.R1', file='src/lib/handle_mgr/HandleManager.cpp', after='void HandleManager::destroyObject(',
